@@ -109,6 +109,8 @@ def _resolve(case):
             s["base"] = "FW"  # armi/tests/ISOAA: file-wide chi, five scatter blocks, its own group bounds
         if case.get("allFwChi") and s["kind"] == "iso":
             s["fwChi"] = True  # every ISOTXS of the set relies on a file-wide chi
+        if s["kind"] == "pmx" and case.get("prodOrder"):
+            s["prodOrder"] = case["prodOrder"]  # gamma production matrices up to this Legendre order
         s["ng"] = max(1, case["ng"] + s.pop("ngDelta", 0))
         s["gg"] = max(1, case["gg"] + s.pop("ggDelta", 0))
         specs.append(s)
@@ -461,6 +463,7 @@ def merge_strategy(tier):
             "startEmpty": st.booleans(),
             "allFW": st.sampled_from([False] * 7 + [True]),
             "allFwChi": st.sampled_from([False, False, False, True]),
+            "prodOrder": st.sampled_from([1, 3, 2, 4, 3]),
             # (one_of would merge repeated alternatives, so the weights are drawn explicitly)
             "libs": st.tuples(st.integers(0, 13), free, fams, single, chis).map(
                 lambda t: t[3] if t[0] == 0 else t[1] if t[0] <= 4 else t[2] if t[0] <= 9 else t[4]),
@@ -694,6 +697,9 @@ def macro_strategy(tier):
             "minDens": st.sampled_from([0.0, 1e-13, 1e-3, 1e-3]),
             "trace": st.integers(0, 5),  # with minDens 1e-3 this nuclide is present at 2.5e-4
             "realBlock": st.booleans(),
+            "prodOrder": st.sampled_from([1, 3, 2, 4]),
+            "deleteMode": st.sampled_from(["del", "del", "purge", "none"]),
+            "delete": st.integers(0, 5),
         }
     )
 
@@ -767,7 +773,8 @@ def macro_execute(case):
     out = Out()
     guard = _global_guard()
     common = {k: case[k] for k in ("base", "suffix", "nucs", "band", "dropRx", "dropBlocks", "dropFission", "fwChi")}
-    specs = [dict(common, kind=k, scale=sc, ng=case["ng"], gg=case["gg"]) for k, sc in zip(L.KINDS, case["scales"])]
+    specs = [dict(common, kind=k, scale=sc, ng=case["ng"], gg=case["gg"], prodOrder=case.get("prodOrder", 1))
+             for k, sc in zip(L.KINDS, case["scales"])]
     paths = _files(specs, "x")
     try:
         ref = [L.reader(k)(p) for k, p in zip(L.KINDS, paths)]  # reference copies, never merged
@@ -977,6 +984,14 @@ def macro_execute(case):
                 mc = xc.MacroscopicCrossSectionCreator(minimumNuclideDensity=minD)
                 m = mc.createMacrosFromMicros(lib, blk, libType=libType)
                 _creator_compare(out, np, xc, m, coll, chi_coll, names, sel, G, ng, what, chi_dens=dens)
+                # the block-list entry point must give each block the macros of the requested libType
+                blk.macros = None
+                ret = mc.createMacrosOnBlocklist(lib, [blk], libType=libType)
+                out.check(isinstance(ret, list) and len(ret) == 1 and ret[0] is blk and blk.macros is not None,
+                          "creator-blocklist/result", lambda: "%s: createMacrosOnBlocklist returns %r, macros %r" % (what, ret, blk.macros))
+                if blk.macros is not None:
+                    _creator_compare(out, np, xc, blk.macros, coll, chi_coll, names, sel, G, ng, what + ", createMacrosOnBlocklist",
+                                     chi_dens=dens, prefix="creator-blocklist")
                 _close(out, m.absorption, sum(np.asarray(m[rx]) for rx in reversed(xc.ABSORPTION_XS)),
                        sum(np.abs(np.asarray(m[rx])) for rx in xc.ABSORPTION_XS), "creator/absorption",
                        what + " (sum of the macros' own parts)")
@@ -1039,6 +1054,57 @@ def macro_execute(case):
         # nothing above may change the library
         after = L.library_snapshot(lib)
         _compare(out, after, lib_before, "macro/library-mutated", "after computing macroscopic constants")
+
+        # ---- history: nuclides removed after the merge (del / purgeFissionProducts); the library must then hold exactly
+        # the remaining nuclides and the removed ones count as missing
+        dmode = case.get("deleteMode", "none")
+        if dmode != "none" and nn >= 1:
+            k = case.get("delete", 0) % nn
+            gone = [k] if dmode == "del" else sorted({k, (k + 2) % nn})
+            if dmode == "del":
+                del lib[labels[k]]
+            else:
+                class _R:  # what purgeFissionProducts asks of a reactor
+                    class blueprints:
+                        allNuclidesInProblem = [names[i] for i in range(nn) if i not in gone]
+
+                lib.purgeFissionProducts(_R)
+            out.label("removed:%s" % dmode)
+            want = dict(after)
+            keep = [lab for i, lab in enumerate(labels) if i not in gone]
+            want["labels"] = want["dictKeys"] = sorted(keep)
+            want["labelCount"] = len(keep)
+            want["ident"] = {lab: after["ident"][lab] for lab in keep}
+            want["nucs"] = {lab: after["nucs"][lab] for lab in keep}
+            _compare(out, L.library_snapshot(lib), want, "removal", "after removing %s" % [labels[i] for i in gone])
+            for i in gone:
+                lab, nm = labels[i], names[i]
+                out.check(lab not in lib and lib.get(lab, None) is None, "removal/still-found",
+                          lambda: "%s removed but `in`/get() still find it: %r" % (lab, lib.get(lab, None)))
+                try:
+                    found = lib.getNuclide(nm, suffix)
+                except KeyError:
+                    found = None
+                out.check(found is None, "removal/still-found", lambda: "getNuclide(%r, %r) returns %r after its removal" % (nm, suffix, found))
+                comp_gone = dict(nz(N1))
+                comp_gone[nm] = 0.01
+                for tag, call in (
+                    ("computeMacroscopicGroupConstants", lambda: xc.computeMacroscopicGroupConstants("nGamma", comp_gone, lib, suffix, libType="micros")),
+                    ("createMacrosFromMicros", lambda: xc.MacroscopicCrossSectionCreator().createMacrosFromMicros(lib, _DuckBlock(comp_gone, suffix))),
+                ):
+                    try:
+                        res = call()
+                        out.fail("removal/removed-nuclide-still-counted", "%s for a composition naming the removed %s returns %s instead "
+                                 "of raising ValueError" % (tag, nm, type(res).__name__))
+                    except ValueError:
+                        pass
+            rest = {names[i]: N1[names[i]] for i in range(nn) if i not in gone}
+            if nz(rest):
+                for rx in ("nGamma", "fission"):
+                    arrs = [np.asarray(getattr(iso[i].micros, rx), dtype=float) for i in range(nn)]
+                    e, mg = refsum(dict(rest, **{names[i]: 0.0 for i in gone}), arrs)
+                    _close(out, xc.computeMacroscopicGroupConstants(rx, rest, lib, suffix, libType="micros"), e, mg,
+                           "removal/weighted-sum", "%s over the remaining nuclides" % rx)
     finally:
         _cleanup(paths)
         _global_check(out, guard)
@@ -1069,6 +1135,7 @@ def workdir_strategy(tier):
             "gg": st.integers(1, 4),
             "gamma": st.booleans(),
             "allFwChi": st.sampled_from([False, False, True]),
+            "prodOrder": st.sampled_from([1, 3, 2, 4, 3]),
             "suffixes": st.permutations([0, 1, 2, 3]),
             "families": st.lists(fam, min_size=1, max_size=3),
             "preloaded": st.booleans(),
@@ -1094,7 +1161,7 @@ def workdir_execute(case):
             common = dict(base=f["base"], suffix=sfx, nucs=f["nucs"], band=f["band"], dropRx=f["dropRx"],
                           dropBlocks=f["dropBlocks"], fwChi=f["fwChi"] or case.get("allFwChi", False),
                           ng=max(1, case["ng"] + f["ngDelta"]), gg=case["gg"],
-                          shiftE=f.get("shift", False), shiftG=f.get("shift", False))
+                          shiftE=f.get("shift", False), shiftG=f.get("shift", False), prodOrder=case.get("prodOrder", 1))
             files = [("iso", os.path.join(d, "ISO" + xsid))]
             if case["gamma"]:
                 files += [("gam", os.path.join(d, xsid + ".gamiso")), ("pmx", os.path.join(d, xsid + ".pmatrx"))]
@@ -1184,7 +1251,7 @@ def _windows(labels, xsid):
     return res
 
 
-def _creator_compare(out, np, xc, m, coll, chi_coll, names, dens, G, ng, what, chi_dens=None):
+def _creator_compare(out, np, xc, m, coll, chi_coll, names, dens, G, ng, what, chi_dens=None, prefix="creator"):
     """createMacrosFromMicros output against sums over exactly the collections ``coll`` (one per name).
 
     ``dens`` is the selected composition (nucNames, minimumNuclideDensity applied); ``chi_dens`` the whole block's
@@ -1208,21 +1275,21 @@ def _creator_compare(out, np, xc, m, coll, chi_coll, names, dens, G, ng, what, c
         else:
             arrs = [np.asarray(getattr(c, rx), dtype=float) for c in coll]
         vec[rx], mags[rx] = refsum(arrs)
-        _close(out, m[rx], vec[rx], mags[rx], "creator/weighted-sum", "%s %s" % (what, rx))
+        _close(out, m[rx], vec[rx], mags[rx], prefix + "/weighted-sum", "%s %s" % (what, rx))
     absw = sum(vec[rx] for rx in xc.ABSORPTION_XS)
     absm = sum(mags[rx] for rx in xc.ABSORPTION_XS)
-    _close(out, m.absorption, absw, absm, "creator/absorption", what)
+    _close(out, m.absorption, absw, absm, prefix + "/absorption", what)
     mats = {}
     for rx in xc.BASIC_SCAT_MATRIX:
         arrs = [np.zeros((G, G)) if getattr(c, rx) is None else getattr(c, rx).toarray() for c in coll]
         mats[rx], mags[rx] = refsum(arrs)
-        _close(out, m[rx].toarray(), mats[rx], mags[rx], "creator/scatter-matrix", "%s %s" % (what, rx))
+        _close(out, m[rx].toarray(), mats[rx], mags[rx], prefix + "/scatter-matrix", "%s %s" % (what, rx))
     tot = mats["elasticScatter"] + mats["inelasticScatter"] + 2.0 * mats["n2nScatter"]
     totm = mags["elasticScatter"] + mags["inelasticScatter"] + 2.0 * mags["n2nScatter"]
-    _close(out, m.totalScatter.toarray(), tot, totm, "creator/total-scatter", what)
+    _close(out, m.totalScatter.toarray(), tot, totm, prefix + "/total-scatter", what)
     rem = absw - vec["n2n"] + tot.sum(axis=0) - np.diag(tot)
     remm = absm + mags["n2n"] + totm.sum(axis=0) + np.diag(totm)
-    _close(out, m.removal, rem, remm, "creator/removal", what)
+    _close(out, m.removal, rem, remm, prefix + "/removal", what)
     num = np.zeros(ng)
     den = 0.0
     for i in reversed(range(nn)):
@@ -1231,7 +1298,7 @@ def _creator_compare(out, np, xc, m, coll, chi_coll, names, dens, G, ng, what, c
         num = num + np.asarray(c.chi, dtype=float) * chi_dens[names[i]] * f
         den += chi_dens[names[i]] * f
     chi = num / den if den != 0.0 else np.zeros(ng)
-    _close(out, m.chi, chi, np.abs(chi) * 10 + 1e-12, "creator/block-chi", what)
+    _close(out, m.chi, chi, np.abs(chi) * 10 + 1e-12, prefix + "/block-chi", what)
 
 
 def multi_id_execute(case):
@@ -1331,7 +1398,7 @@ def multi_id_execute(case):
 
 
 PARTS = [
-    Part("merge_orders", merge_execute, strategy=merge_strategy, budget={"quick": 320, "thorough": 8000},
+    Part("merge_orders", merge_execute, strategy=merge_strategy, budget={"quick": 300, "thorough": 8000},
          procs={"quick": 8, "thorough": 16},
          rule="Hypothesis: 1-4 library specs (ISOTXS/GAMISO/PMATRX derived from the fixtures: group counts, nuclide subsets, xs-ID "
               "suffixes, scales, dropped reactions/blocks, bands, file-wide chi, dose factors; free or grouped in same-label "
@@ -1339,7 +1406,7 @@ PARTS = [
               "after every step the target is compared with a union model (compatible step) or with its own previous snapshot "
               "(conflicting step must raise); final snapshots of all orders compared pairwise; non-trivial = >= 2 libraries "
               "with >= 2 nuclides"),
-    Part("macro_sums", macro_execute, strategy=macro_strategy, budget={"quick": 400, "thorough": 12000},
+    Part("macro_sums", macro_execute, strategy=macro_strategy, budget={"quick": 360, "thorough": 12000},
          procs={"quick": 8, "thorough": 16},
          rule="Hypothesis: an ISOTXS+GAMISO+PMATRX family merged in a drawn order; compositions with zero densities, the empty "
               "composition, missing nuclides; computeMacroscopicGroupConstants (16 constants), the four energy-constant "
